@@ -15,22 +15,19 @@ from harness.common import exc_name, canon, jdump
 
 PID = "C03"
 TITLE = "Split.run follows its documented block/branch schedule for every branch mix"
-LEAN_MODULES = ["LenaModel.Props.C03", "LenaModel.Props.C03X", "LenaModel.Props.C03Zip"]
+LEAN_MODULES = ["LenaModel.Props.C03", "LenaModel.Props.C03X", "LenaModel.Props.C03Zip", "LenaModel.Props.C03R"]
 LEAN_SOURCES = ["LenaModel/Model/C03.lean", "LenaModel/Lemmas/C03.lean", "LenaModel/Props/C03.lean",
                 "LenaModel/Model/C03X.lean", "LenaModel/Lemmas/C03X.lean", "LenaModel/Props/C03X.lean",
-                "LenaModel/Model/C03Zip.lean", "LenaModel/Props/C03Zip.lean", "LenaModel/Model/C03Spec.lean"]
+                "LenaModel/Model/C03Zip.lean", "LenaModel/Props/C03Zip.lean", "LenaModel/Model/C03Spec.lean", "LenaModel/Props/C03R.lean"]
 DRIVER = "drivers/C03.lean"
 THEOREMS = [
     "Lena.C03.loop_refines_spec",
     "Lena.C03.run_eq_schedule",
     "Lena.C03.run_outputs_eq_schedule",
-    "Lena.C03.copy_buf_irrelevant",
     "Lena.C03.no_assert_fail",
     "Lena.C03.blocks_flatten",
     "Lena.C03.blocks_sizes",
-    "Lena.C03.blocks_none",
     "Lena.C03.blocks_large",
-    "Lena.C03.mkBranches_nodup",
     "Lena.C03.projection",
     "Lena.C03.branchTrace_source",
     "Lena.C03.source_first_block",
@@ -51,46 +48,69 @@ THEOREMS = [
     "Lena.C03.methods_available",
     "Lena.C03.call_available",
     "Lena.C03.common_type_source",
-    "Lena.C03.common_type_fill_compute",
-    "Lena.C03.common_type_fill_request",
     "Lena.C03.zip_yield_ith",
     "Lena.C03.zip_ith",
     "Lena.C03.colAt_eq_none_iff",
     "Lena.C03.colAt_eq_some",
     "Lena.C03.classify_source_iff",
-    "Lena.C03.classify_explicit",
-    "Lena.C03.classify_el",
     "Lena.C03.classify_tuple_fc",
-    "Lena.C03.splitInit_not_list",
     "Lena.C03.splitInit_valid",
     "Lena.C03.splitInit_bad_bufsize",
     "Lena.C03.zipInit_ok_iff",
     "Lena.C03.contribution_causal",
     "Lena.C03.splitFill_stop",
     "Lena.C03.splitFillAll_iff",
-    "Lena.C03.nested_fill_compute",
-    "Lena.C03.nested_fill_request",
     "Lena.C03.tuple_fill_compute",
     "Lena.C03.tuple_fill_request",
     "Lena.C03.tuple_sequence",
-    # part 2 (Props/C03X.lean): the objects after the run, exceptions of branches, bufsize arguments
     "Lena.C03.runFull_trace",
     "Lena.C03.runFull_seqs",
     "Lena.C03.runObj_eq",
     "Lena.C03.runX_prefix",
-    "Lena.C03.runX_bad_bufsize",
     "Lena.C03.bufArgInit_valid",
     "Lena.C03.branch_receives_prefix",
     "Lena.C03.sequence_receives_all",
     "Lena.C03.split_branch_receives",
     "Lena.C03.run_outputs_blockwise",
     "Lena.C03.run_twice",
-    "Lena.C03.splitRunOps_run",
-    # part 3 (Props/C03Zip.lean): Zip on values with context (context algebra: Lena.C07.zip_context)
     "Lena.C03.zip_ctx_ith",
     "Lena.C03.zip_ctx_length",
     "Lena.C03.zip_value_lossless",
     "Lena.C03.zipFields_list_arity",
+    "Lena.C03.contribution_blockForm",
+    "Lena.C03.finalContribution_finalForm",
+    "Lena.C03.run_outputs_blockForm",
+    "Lena.C03.runX_raised_cut",
+    "Lena.C03.cacheRule_none_iff",
+    "Lena.C03.cacheRule_valid",
+    "Lena.C03.cacheRule_no_cache",
+    "Lena.C03.splitInitC_valid",
+    "Lena.C03.common_type_fill_compute_partial",
+    "Lena.C03.common_type_fill_compute_full_false",
+    "Lena.C03.common_type_fill_request_partial",
+    "Lena.C03.common_type_fill_request_full_false",
+    "Lena.C03.nested_fill_compute_partial",
+    "Lena.C03.nested_fill_request_partial",
+]
+# true by definition, model-internal glue, or superseded by a `_partial` name: audited, not counted as obligations
+AUX_THEOREMS = [
+    "Lena.C03.copy_buf_irrelevant",
+    "Lena.C03.classify_explicit",
+    "Lena.C03.classify_el",
+    "Lena.C03.splitInit_not_list",
+    "Lena.C03.blocks_none",
+    "Lena.C03.runX_bad_bufsize",
+    "Lena.C03.splitRunOps_run",
+    "Lena.C03.mkBranches_nodup",
+    "Lena.C03.common_type_fill_compute",
+    "Lena.C03.common_type_fill_request",
+    "Lena.C03.nested_fill_compute",
+    "Lena.C03.nested_fill_request",
+    "Lena.C03.runOn_container_iterator",
+    "Lena.C03.mkHarnessBranches_nodup",
+    "Lena.C03.mkOuterBranches_nodup",
+    "Lena.C03.mkBranchesX_nodup",
+    "Lena.C03.streaming_of_perValue",
 ]
 CASE_TIMEOUT = 10
 
@@ -109,17 +129,25 @@ def _kind(sp):
 # ----------------------------------------------------------------------------------------
 # instrumented branch elements (the harness vocabulary; Lean: `BSpec.ops`)
 
-def _boom_iter(res, boom):
-    """iterator over `res` that raises ValueError once `boom` values were yielded (if there are that many)"""
+def _boom_exc(name):
+    import lena.core
+    return {"ValueError": ValueError, "LenaStopFill": lena.core.LenaStopFill,
+            "KeyboardInterrupt": KeyboardInterrupt}[name or "ValueError"]
+
+
+def _boom_iter(res, boom, exc=None):
+    """iterator over `res` that raises once `boom` values were yielded (if there are that many): ValueError, or
+    LenaStopFill (which Split.run must catch around fill() only), or a BaseException (KeyboardInterrupt)"""
     if boom is None or boom > len(res):
         return iter(res)
+    cls = _boom_exc(exc)
 
     def gen():
         for j, v in enumerate(res):
             if j == boom:
-                raise ValueError("boom")
+                raise cls("boom")
             yield v
-        raise ValueError("boom")
+        raise cls("boom")
     return gen()
 
 
@@ -127,12 +155,13 @@ class SrcEl(object):
     def __init__(self, tag, k, log, boom_gen=None):
         self.tag, self.k, self.log, self.calls = tag, k, log, 0
         self.boom_gen = boom_gen
+        self.boom_exc = None
 
     def __call__(self):
         self.log.append((self.tag, ["call"]))
         c = self.calls
         self.calls += 1
-        return _boom_iter([(self.tag, "src", c, j) for j in range(self.k)], self.boom_gen)
+        return _boom_iter([(self.tag, "src", c, j) for j in range(self.k)], self.boom_gen, self.boom_exc)
 
     def state(self):
         return {"v": [], "n": 0, "calls": self.calls, "total": 0}
@@ -143,6 +172,7 @@ class _Filler(object):
         self.tag, self.stop, self.late, self.log = tag, stop, late, log
         self.v, self.n, self.calls = [], 0, 0
         self.boom_fill, self.boom_gen = boom_fill, boom_gen
+        self.boom_exc = None
 
     def state(self):
         return {"v": list(self.v), "n": self.n, "calls": self.calls, "total": 0}
@@ -174,7 +204,7 @@ class FC(_Filler):
         res = [(self.tag, "compute", c, tuple(self.v))]
         if self.items:
             res += [(self.tag, "item", x) for x in self.v]
-        return _boom_iter(res, self.boom_gen)
+        return _boom_iter(res, self.boom_gen, self.boom_exc)
 
 
 class FR(_Filler):
@@ -184,7 +214,7 @@ class FR(_Filler):
         self.calls += 1
         res = [(self.tag, "request", c, tuple(self.v))]
         self.v = []
-        return _boom_iter(res, self.boom_gen)
+        return _boom_iter(res, self.boom_gen, self.boom_exc)
 
 
 class SQ(object):
@@ -192,6 +222,7 @@ class SQ(object):
         self.tag, self.variant, self.log = tag, variant, log
         self.calls, self.n, self.v = 0, 0, []
         self.boom_gen = boom_gen
+        self.boom_exc = None
         if variant == "cache":
             self.is_cache = True  # what lena.flow.Cache sets: Split then reads the whole flow at once
 
@@ -227,7 +258,7 @@ class SQ(object):
             self.calls += 1
         else:
             raise ValueError(v)
-        return _boom_iter(res, self.boom_gen)
+        return _boom_iter(res, self.boom_gen, self.boom_exc)
 
 
 def _mk_sum(tag, log):
@@ -251,16 +282,20 @@ def _mk_el(sp, tag, log):
     """the element object of a branch (before it is wrapped into the form given to Split)"""
     k = sp["k"]
     bf, bg = sp.get("boom_fill"), sp.get("boom_gen")
+    el = None
     if k == "src":
-        return SrcEl(tag, sp["n"], log, bg)
+        el = SrcEl(tag, sp["n"], log, bg)
     if k == "fc":
-        return FC(tag, sp["stop"], sp["late"], sp["items"], log, bf, bg)
+        el = FC(tag, sp["stop"], sp["late"], sp["items"], log, bf, bg)
     if k == "fr":
-        return FR(tag, sp["stop"], sp["late"], log, bf, bg)
+        el = FR(tag, sp["stop"], sp["late"], log, bf, bg)
     if k == "sq":
         if sp["v"] == "lam":
             return lambda x, tag=tag: (tag, "lam", x)
-        return SQ(tag, sp["v"], log, bg)
+        el = SQ(tag, sp["v"], log, bg)
+    if el is not None:
+        el.boom_exc = sp.get("boom_exc")
+        return el
     if k == "sum":
         return _mk_sum(tag, log)
     if k == "nest":
@@ -302,7 +337,7 @@ def _mk_nest(sp, tag, log):
         def run(flow):
             buf = list(flow)
             log.append((tag, ["run", list(buf)]))
-            return orig_run(buf)  # the enclosing Split hands a list over (Sequence.run -> flow_to_iter)
+            return orig_run(_ReList(buf))  # a list, as the enclosing Split's Sequence wrapper receives it
         ns.run = run
     return ns
 
@@ -496,7 +531,7 @@ def ref_run(specs, bufsize, flow):
     return out, _inv(log, len(specs))
 
 
-def _ref_schedule(specs, els, bufsize, flow, out):
+def _ref_schedule(specs, els, bufsize, flow, out, log=None):
     """the documented schedule on the given element objects; appends to `out` as it goes, so that what was
     yielded before an exception of an element is kept (the exception propagates)"""
     import lena.core
@@ -525,15 +560,22 @@ def _ref_schedule(specs, els, bufsize, flow, out):
         # value by value: what was yielded before an exception of the generator stays yielded
         for v in gen:
             out.append(post[i](v) if use_post else v)
+            if log is not None:
+                log.append((i, ["out", out[-1]]))
+
+    def mark(what):
+        if log is not None:
+            log.append((None, [what]))
 
     def run_seq(i, blk):
         blk = [pre[i](x) for x in blk]
         if lam[i]:
             emit(i, (els[i](x) for x in blk))
         else:
-            emit(i, els[i].run(list(blk)))
+            emit(i, els[i].run(_ReList(blk)))
 
     for blk in blocks:
+        mark("block")
         for i, el in enumerate(els):
             if not active[i]:
                 continue
@@ -551,6 +593,7 @@ def _ref_schedule(specs, els, bufsize, flow, out):
                     active[i] = False
             else:
                 run_seq(i, blk)
+    mark("final")
     for i, el in enumerate(els):
         if not active[i]:
             continue
@@ -693,6 +736,7 @@ def _rand_runx(rng, maxbr, maxn):
             sp["boom_fill"] = rng.randint(0, n + 1)
         elif r < 0.3 and not (sp["k"] == "sq" and sp["v"] == "lam"):
             sp["boom_gen"] = rng.randint(0, 3)
+            sp["boom_exc"] = rng.choice(["ValueError", "ValueError", "LenaStopFill", "KeyboardInterrupt"])
         brs.append(sp)
     r = rng.random()
     bufarg = rng.choice(BUFARGS) if r < 0.15 else rng.choice([None, {"int": 1}, {"int": 2}, {"int": 3}, {"int": 1000}])
@@ -754,6 +798,13 @@ def _rand_zipctx(rng):
 # ---- real lena accumulators and elements that change what they were filled with (op "realfc") ----------
 REAL_FC = ["Count", "Sum", "Mean", "StoreFilled", "StoreFilledFlat", "MutFC", "KeepFC"]
 REAL_FR = ["MutFR", "KeepFR"]
+REAL_SQ = ["MutSQ", "KeepSQ"]
+REAL_MIXED = REAL_FC + REAL_FR + REAL_SQ + REAL_SQ + ["Src"]
+
+
+def _real_kind(name):
+    return ("source" if name == "Src" else "sequence" if name.endswith("SQ") else
+            "fill_request" if name.endswith("FR") else "fill_compute")
 
 
 class _MutBase(object):
@@ -775,6 +826,13 @@ class _MutBase(object):
         yield (self.name, self.n, self.last)
 
 
+class _RunOnly(object):
+    """exposes only `run` of a _MutBase (a plain Run element: no fill/compute/request)"""
+
+    def __init__(self, el):
+        self.run = el.run
+
+
 def _mk_real(name, pos):
     import lena.flow
     import lena.math
@@ -788,7 +846,19 @@ def _mk_real(name, pos):
         return lena.flow.StoreFilled()
     if name == "StoreFilledFlat":
         return lena.flow.StoreFilled(yield_as_a_group=False)
+    if name == "Src":
+        import lena.core
+        return lena.core.Source(lambda pos=pos: iter([("Src%d" % pos, j) for j in range(2)]))
     el = _MutBase("%s%d" % (name, pos), name.startswith("Mut"))
+    if name.endswith("SQ"):
+        def run(flow, el=el):
+            # a run element that touches / hands on the value objects it receives
+            for val in flow:
+                el.fill(val)
+                yield (el.name, val)
+        el.run = run
+        del_fill = True
+        return _RunOnly(el)
     if name.endswith("FC"):
         el.compute = el._results
     else:
@@ -803,8 +873,10 @@ def _mk_real(name, pos):
 def _rand_realfc(rng):
     """common-type Splits of real accumulators / value-changing elements on values WITH CONTEXT: the common
     methods against run (copy_buf=True: every branch but the last works on its own copy)"""
-    kind = "fc" if rng.random() < 0.7 else "fr"
-    names = REAL_FC if kind == "fc" else REAL_FR
+    r = rng.random()
+    kind = "fc" if r < 0.4 else "fr" if r < 0.55 else "mixed" if r < 0.8 else "zipfc" if r < 0.9 else "zipfr"
+    names = {"fc": REAL_FC, "fr": REAL_FR, "mixed": REAL_MIXED, "zipfc": ["MutFC", "KeepFC"],
+             "zipfr": ["MutFR", "KeepFR"]}[kind]
     n = rng.randint(0, 5)
     flow = []
     for i in range(n):
@@ -894,6 +966,25 @@ def _init_cases(rng, tier):
     for a in reps:
         for b in reps:
             cases.append({"op": "init", "objs": [a, b], "bufsize": 1000, "is_list": True})
+    # attributes that exist but are not callable; lists of elements; elements / sequences with `is_cache`
+    for c in ("F", "Fc", "fC", "FC", "Fq", "fQ", "R", "Rk", "fcR", "I", "kI", "FCQR", "fcQ", "Fcq"):
+        cases.append({"op": "init", "objs": [{"t": "el", "caps": c}], "bufsize": 2, "is_list": True})
+        cases.append({"op": "init", "objs": [{"t": "tuple", "els": ["k", c, "r"]}], "bufsize": None, "is_list": True})
+    for a in CAPS_REPR:
+        for b in ("fc", "fq", "r", "k", ""):
+            cases.append({"op": "init", "objs": [{"t": "list", "els": [a, b]}], "bufsize": 3, "is_list": True})
+    cases.append({"op": "init", "objs": [{"t": "list", "els": []}], "bufsize": 3, "is_list": True})
+    for o in ({"t": "el", "caps": "r", "cache": [True]}, {"t": "el", "caps": "fc", "cache": [True]},
+              {"t": "el", "caps": "fq", "cache": [True]}, {"t": "el", "caps": "k", "cache": [True]},
+              {"t": "seq", "cache": [True]}, {"t": "seq"},
+              {"t": "tuple", "els": ["k", "r"], "cache": [False, True]},
+              {"t": "tuple", "els": ["r", "fc"], "cache": [True, False]},
+              {"t": "tuple", "els": ["fq", "r"], "cache": [False, True]},
+              {"t": "tuple", "els": ["k", "r"], "cache": [False, False]},
+              {"t": "list", "els": ["k", "fc"], "cache": [True, False]}):
+        for bs in (None, 1, 1000, 0):
+            cases.append({"op": "init", "objs": [o], "bufsize": bs, "is_list": True})
+            cases.append({"op": "init", "objs": [{"t": "el", "caps": "fc"}, o], "bufsize": bs, "is_list": True})
     cases.append({"op": "init", "objs": [], "bufsize": 1000, "is_list": True})
     cases.append({"op": "init", "objs": [], "bufsize": 0, "is_list": True})
     cases.append({"op": "init", "objs": [], "bufsize": None, "is_list": False})
@@ -908,8 +999,13 @@ def _init_cases(rng, tier):
             elif r < 0.5:
                 objs.append({"t": "el", "caps": rng.choice(allc)})
             else:
-                objs.append({"t": "tuple", "els": [rng.choice(allc if rng.random() < 0.5 else CAPS_REPR)
-                                                   for _ in range(rng.randint(0, 4))]})
+                els = [rng.choice(allc if rng.random() < 0.5 else CAPS_REPR) for _ in range(rng.randint(0, 4))]
+                if rng.random() < 0.2:
+                    els = [e.replace(rng.choice("fcqr"), rng.choice("FCQR")) for e in els]
+                o = {"t": "tuple" if rng.random() < 0.8 else "list", "els": els}
+                if rng.random() < 0.25:
+                    o["cache"] = [rng.random() < 0.4 for _ in els]
+                objs.append(o)
         cases.append({"op": "init", "objs": objs, "bufsize": rng.choice([None, None, 1, 2, 1000, 0, -1]),
                       "is_list": rng.random() < 0.9})
     return cases
@@ -1252,6 +1348,16 @@ def _zipctx_impl(case):
             else:
                 item["zip"] = None
                 item["common"] = _enc_ctx(ctx)
+            # each sequence's context recovered with lena's own update_recursively (reference for `ZVal.recover`)
+            import copy
+            import lena.context
+            rec = []
+            for jx in range(len(els)):
+                c = copy.deepcopy({k: v for k, v in ctx.items() if not (k == "zip" and isinstance(zp, tuple))})
+                if isinstance(zp, tuple):
+                    lena.context.update_recursively(c, copy.deepcopy(zp[jx]))
+                rec.append(_enc_ctx(c))
+            item["recovered"] = rec
             res.append(item)
     except Exception as e:
         raised = exc_name(e)
@@ -1284,6 +1390,11 @@ def _realfc_impl(case):
 
     def branches():
         return [_mk_real(nm, i) for i, nm in enumerate(names)]
+
+    if kind == "mixed":
+        return _realfc_mixed(case, branches)
+    if kind in ("zipfc", "zipfr"):
+        return _realfc_zip(case, branches)
 
     def blocks(flow):
         return _blocks(flow, bs)
@@ -1333,15 +1444,93 @@ def _realfc_impl(case):
             "alone": _outcome(alone)}
 
 
+def _realfc_mixed(case, branches):
+    """a Split of any mix of kinds whose branches touch / keep the value objects: run(flow) against the documented
+    schedule in which every branch works on its own copy of every block"""
+    import copy
+    import lena.core as lc
+    names, cb, bs = case["brs"], case["copy_buf"], case["bufsize"]
+
+    def via_run():
+        out = []
+        _drain(lc.Split(branches(), bufsize=bs, copy_buf=cb).run(_as_flow(_real_flow(case), case.get("fk", 0))), out)
+        return out
+
+    def alone():
+        els = branches()
+        kinds = [_real_kind(nm) for nm in names]
+        out, active = [], [True] * len(els)
+        bl = _blocks(_real_flow(case), bs)
+        for blk in bl:
+            for i, el in enumerate(els):
+                if not active[i]:
+                    continue
+                mine = copy.deepcopy(blk)
+                if kinds[i] == "source":
+                    out.extend(el())
+                    active[i] = False
+                elif kinds[i] == "fill_compute":
+                    for v in mine:
+                        el.fill(v)
+                elif kinds[i] == "fill_request":
+                    for v in mine:
+                        el.fill(v)
+                    out.extend(el.request())
+                else:
+                    out.extend(el.run(iter(mine)))
+        for i, el in enumerate(els):
+            if not active[i]:
+                continue
+            if kinds[i] == "source":
+                out.extend(el())
+            elif kinds[i] == "fill_compute":
+                out.extend(el.compute())
+            elif not bl:
+                out.extend(el.request() if kinds[i] == "fill_request" else el.run(iter([])))
+        return out
+    return {"run": _outcome(via_run), "alone": _outcome(alone)}
+
+
+def _realfc_zip(case, branches):
+    """Zip of branches that touch / keep the value objects: Zip.fill gives every sequence its own copy"""
+    import lena.flow
+    meth = "compute" if case["kind"] == "zipfc" else "request"
+
+    def via_zip():
+        z = lena.flow.Zip(branches())
+        for v in _real_flow(case):
+            z.fill(v)
+        return [list(t) for t in getattr(z, meth)()]
+
+    def alone():
+        els = branches()
+        for el in els:
+            for v in _real_flow(case):
+                el.fill(v)
+        return [list(t) for t in zip(*[list(getattr(el, meth)()) for el in els])]
+    return {"run": _outcome(via_zip), "alone": _outcome(alone)}
+
+
 def _oracle_realfc(case, res):
     """'a Split whose branches share one type offers that type's methods with the same meaning': for every flow,
     `fill` each value then `compute()` (block-wise `fill` then `request()`) yields what `run(flow)` yields, also when
     the Split is nested as a branch of another one; with copy_buf=True (every branch but the last gets its own copy)
     that is what the branches yield when each is driven alone.  copy_buf=False may legitimately interfere: no claim."""
+    if case["kind"] in ("zipfc", "zipfr"):
+        if res["run"] != res["alone"]:
+            return (f"[zip-branches-interfere] Zip([{', '.join(case['brs'])}]) filled with {case['flow']} yields "
+                    f"{res['run']}; the tuples of the i-th results of the sequences filled alone (Zip.fill gives "
+                    f"each its own copy) are {res['alone']}")
+        return None
     if not case["copy_buf"]:
         return None
     what = (f"Split([{', '.join(case['brs'])}], bufsize={case['bufsize']}, copy_buf=True) on the flow "
             f"{case['flow']}")
+    if case["kind"] == "mixed":
+        if res["run"] != res["alone"]:
+            return (f"[branches-interfere] {what}: run(flow) yields {res['run']} but the documented schedule with every "
+                    f"branch working on its own copy of each block yields {res['alone']}")
+        return None
     how = "fill each value then compute()" if case["kind"] == "fc" else "fill each block then request()"
     if res["methods"] != res["run"]:
         return f"[methods-vs-run] {what}: {how} yields {res['methods']} but run(flow) yields {res['run']}"
@@ -1352,8 +1541,15 @@ def _oracle_realfc(case, res):
     return None
 
 
-def _caps_el(caps):
+def _caps_el(caps, is_cache=False):
+    """an object with the given attributes: lower case = callable, upper case (F C Q R I) = present but NOT callable
+    (the checks of check_sequence_type.py / adapters.py demand callables); is_cache: the attribute of lena.flow.Cache"""
     d = {}
+    for up, name in (("F", "fill"), ("C", "compute"), ("Q", "request"), ("R", "run"), ("I", "fill_into")):
+        if up in caps:
+            d[name] = 1
+    if is_cache:
+        d["is_cache"] = True
     if "f" in caps:
         d["fill"] = lambda self, v: None
     if "c" in caps:
@@ -1381,12 +1577,18 @@ def _mk_obj(o):
         return lc.FillComputeSeq(FC(0, None, False, False, log))
     if t == "frseq":
         return lc.FillRequestSeq(FR(0, None, False, log), reset=False, buffer_input=True)
+    cache = o.get("cache", [])
+
+    def flag(i):
+        return bool(cache[i]) if i < len(cache) else False
     if t == "seq":
-        return lc.Sequence(SQ(0, "map", log))
+        return lc.Sequence(SQ(0, "cache" if flag(0) else "map", log))
     if t == "el":
-        return _caps_el(o["caps"])
+        return _caps_el(o["caps"], flag(0))
     if t == "tuple":
-        return tuple(_caps_el(c) for c in o["els"])
+        return tuple(_caps_el(c, flag(i)) for i, c in enumerate(o["els"]))
+    if t == "list":
+        return [_caps_el(c, flag(i)) for i, c in enumerate(o["els"])]
     raise ValueError(t)
 
 
@@ -1407,6 +1609,8 @@ def _init_impl(case):
             m["callable"] = False
         res["split"] = {"kinds": list(getattr(s, "_seq_types", None) or []) if hasattr(s, "_seq_types") else None,
                         "methods": m}
+        if hasattr(s, "_bufsize"):
+            res["split"]["bufsize"] = s._bufsize
     except Exception as e:
         res["split"] = {"e": exc_name(e)}
     import lena.core.check_sequence_type as ct
@@ -1499,6 +1703,8 @@ def _mspecx(sp):
     m = _mspec(sp)
     m.setdefault("boom_fill", None)
     m.setdefault("boom_gen", None)
+    if m.get("boom_exc") is None:
+        m.pop("boom_exc", None)
     return m
 
 
@@ -1545,10 +1751,40 @@ def _cmp_run(specs, r, m, what, flow=None, bufsize=None):
             return f"{what}: values given to branch {i}: impl {recv} vs Lean `received` {mrecv}"
         if m.get("pempty") is not None and _seen_by_element(sp, m["pempty"][i]) != mine:
             return f"{what}: empty flow, branch {i}: impl {mine} vs Lean `invocationOf :: outs resultOf` {m['pempty'][i]}"
+        if m.get("block_agree") is False:
+            return f"{what}: Lean `blockForm`/`finalForm` differ from `contribution`/`finalContribution`"
         for j, ev in enumerate(mine):
             if ev[0] == "fill" and ev[2] and (j + 1 >= len(mine) or mine[j + 1] != m["finaliser"][i]):
                 return f"{what}: branch {i}: after the stopping fill comes {mine[j + 1:j + 2]}, Lean `finaliser` is {m['finaliser'][i]}"
+    if "pblocks" in m and flow is not None and specs and not any(sp["k"] == "nest" for sp in specs):
+        # Lean `blockForm b bl k` / `finalForm b bl` against the reference schedule cut at the block boundaries
+        ref_blocks, ref_final = _ref_by_block(specs, bufsize, flow)
+        for i, sp in enumerate(specs):
+            if not _attributable(sp):
+                continue
+            got = [_seen_by_element(sp, evs) for evs in m["pblocks"][i]]
+            if got != ref_blocks[i]:
+                return f"{what}: branch {i} block by block: Lean `blockForm` {got} vs the reference schedule {ref_blocks[i]}"
+            if _seen_by_element(sp, m["pfinal"][i]) != ref_final[i]:
+                return f"{what}: branch {i} after the last block: Lean `finalForm` {m['pfinal'][i]} vs the reference {ref_final[i]}"
     return None
+
+
+def _ref_by_block(specs, bufsize, flow):
+    """the reference schedule on fresh elements, cut at the block boundaries: per branch the list of what happens
+    to it in block 0, 1, …, and in the final pass"""
+    log = []
+    els = [_mk_el(sp, i, log) for i, sp in enumerate(specs)]
+    _ref_schedule(specs, els, bufsize, flow, [], log)
+    per_block, cur = [], None
+    for t, ev in log:
+        if t is None and ev[0] in ("block", "final"):
+            cur = [[] for _ in specs]
+            per_block.append(cur)
+        elif t is not None and cur is not None:
+            cur[t].append(ev)
+    blocks, final = per_block[:-1], per_block[-1]
+    return canon([[blk[i] for blk in blocks] for i in range(len(specs))]), canon(final)
 
 
 def _attributable(sp):
@@ -1606,7 +1842,8 @@ def _cmp_runx(case, res, m):
             if not (isinstance(it, list) and it[2] == "Other:ValueError" and it[1] is None):
                 return f"{what}: model: islice rejects the bufsize (ValueError before any call); impl ended with {it}"
         elif isinstance(mt, list):
-            if not (isinstance(it, list) and it[1] == mt[1] and it[2] == "Other:" + mt[2]):
+            want = mt[2] if mt[2].startswith("Lena") else "Other:" + mt[2]
+            if not (isinstance(it, list) and it[1] == mt[1] and it[2] == want):
                 return f"{what}: impl ended with {it} vs model {mt}"
         elif it != mt:
             return f"{what}: impl ended with {it} vs model {mt}"
@@ -1657,9 +1894,14 @@ def compare(case, res, replies):
         if "init" in res or "init" in m:
             a, b = res.get("init", {}).get("e"), m.get("init", {}).get("e")
             return None if a == b else f"construction: impl {res.get('init')} vs model {m.get('init')}"
-        got = [{k: v for k, v in it.items() if k != "is_namedtuple"} for it in res["r"]]
-        if got != m["r"]:
-            return f"impl yields {got} vs model {m['r']}"
+        got = [{k: v for k, v in it.items() if k not in ("is_namedtuple", "recovered")} for it in res["r"]]
+        mr = [{k: v for k, v in it.items() if k != "recovered"} for it in m["r"]]
+        if got != mr:
+            return f"impl yields {got} vs model {mr}"
+        for it, mit in zip(res["r"], m["r"]):
+            if it.get("recovered") is not None and it["recovered"] != mit["recovered"]:
+                return (f"contexts recovered with lena.context.update_recursively {it['recovered']} vs Lean "
+                        f"`ZVal.recover` {mit['recovered']}")
         if (res["raised"] == "Other:TypeError") != m["raised"] or res["raised"] not in (None, "Other:TypeError"):
             return f"impl ended with {res['raised']} vs model raised={m['raised']}"
         return None
@@ -1707,6 +1949,8 @@ def compare(case, res, replies):
                     return f"split kinds: impl {a['kinds']} vs model {b['kinds']}"
                 if a["methods"] != b["methods"]:
                     return f"split methods: impl {a['methods']} vs model {b['methods']}"
+                if "bufsize" in a and "bufsize" in b and a["bufsize"] != b["bufsize"]:
+                    return f"block size of the constructed Split (Cache rule): impl {a['bufsize']} vs model {b['bufsize']}"
             elif a != b:
                 return f"zip: impl {a} vs model {b}"
         return None
@@ -1725,8 +1969,9 @@ def _tag_of(v):
 def _oracle_run(case, res):
     specs, flow = case["brs"], case["flow"]
     per_tag = {}
-    for bs, r in zip(case["bufsizes"], res["runs"]):
-        what = f"Split({[_show(s) for s in specs]}, bufsize={bs}, copy_buf={case['copy_buf']}).run({flow})"
+    for j, (bs, r) in enumerate(zip(case["bufsizes"], res["runs"])):
+        fkind = FLOW_KINDS[(case.get("fk", 1) + j) % len(FLOW_KINDS)]
+        what = f"Split({[_show(s) for s in specs]}, bufsize={bs}, copy_buf={case['copy_buf']}).run({flow} given as {fkind})"
         if "e" in r:
             return f"[raised] {what} raised {r['e']} ({r['phase']})"
         try:
@@ -1997,8 +2242,13 @@ def _doc_kind(o):
     t = o["t"]
     if t in ("source", "fcseq", "frseq", "seq"):
         return {"source": "source", "fcseq": "fill_compute", "frseq": "fill_request", "seq": "sequence"}[t]
+    if t == "list":
+        return None
     if t == "el":
         c = o["caps"]
+        # "Object contains executable methods" (check_sequence_type docstrings): an attribute that is not callable
+        # does not count
+        c = "".join(ch for ch in c if ch.islower())
         if "f" in c and "c" in c and "q" in c:
             return None  # both compute and request: which one wins is the code's choice (model), not the property's
         if "f" in c and "c" in c:
@@ -2073,7 +2323,7 @@ def _show(sp):
     f = sp.get("form", "el")
     if k == "src":
         return f"src{sp['n']}"
-    boom = "".join(f",{b}={sp[b]}" for b in ("boom_fill", "boom_gen") if sp.get(b) is not None)
+    boom = "".join(f",{b}={sp[b]}" for b in ("boom_fill", "boom_gen", "boom_exc") if sp.get(b) is not None)
     if k == "fc":
         return f"fc(stop={sp['stop']}{',late' if sp['late'] else ''}{',items' if sp['items'] else ''}{boom})/{f}"
     if k == "fr":
@@ -2233,7 +2483,7 @@ def shrink(case):
             yield dict(case, bufsize=None)
         for i, nm in enumerate(brs):
             for simpler in ("Sum", "Count"):
-                if case["kind"] == "fc" and nm not in ("Sum", "Count"):
+                if case["kind"] in ("fc", "mixed") and nm not in ("Sum", "Count"):
                     yield dict(case, brs=brs[:i] + [simpler] + brs[i + 1:])
     if op == "zipctx":
         rs = case["results"]
@@ -2275,28 +2525,47 @@ TRUSTED = [
 ASSUMPTIONS = [
     "a branch is an object whose methods are functions of its own state: two branches do not share an element "
     "object or other state (aliasing between branches: C04)",
-    "copy.deepcopy of a buffer is the same value: branches do not mutate flow values (aliasing is C04)",
+    "copy_buf / copy.deepcopy are NOT verified in Lean: in the value model a copy is the same value, so the Lean "
+    "theorems hold for both copy_buf values trivially (copy_buf_irrelevant is an AUX theorem) and Split._fill / "
+    "Zip._fill are one function there (zipFill := splitFill) although Zip copies every value and Split spares the "
+    "last branch; the identity analysis is C04's. The VALUE-level consequences of the copy policy are checked on "
+    "the real code by the oracle-only op realfc (common-type, mixed-kind and nested Splits, Zip; elements that "
+    "change / keep the objects they are given; claims only for copy_buf=True)",
+    "the flow is a finite iterable handed over as a list, tuple, other re-iterable object, iterator or generator "
+    "(all generated); `flow = iter(flow)` is transcribed as FlowArg.iter (same content), flows are lists in Lean",
     "generators returned by branch methods are consumed to the end by Split.run unless they raise (finite flows; "
-    "laziness is C02); an exception of a branch is modelled for the branches of the enclosing Split, not inside a "
-    "nested Split",
+    "laziness is C02); the harness elements compute their results when the method is called (state changes while "
+    "a generator is being consumed are outside); an exception of a branch (ValueError from fill; ValueError, "
+    "LenaStopFill or KeyboardInterrupt from inside a generator) is modelled for the branches of the enclosing "
+    "Split, not inside a nested Split",
+    "arguments of Split/Zip: a single object, a tuple or a list of elements, or an explicit lena sequence; other "
+    "iterables (generators, __getitem__-only objects) are not generated; meta.alter_sequence is the identity on all "
+    "generated arguments (no element has alter_sequence) and is not modelled; whether Split.__call__ raises "
+    "LenaAttributeError at the call or at the first next() is not distinguished (observed by consuming the result)",
+    "'with the same meaning' (common-type fill/compute, fill/request, nested): proved when no branch signals "
+    "LenaStopFill (_partial theorems); the unrestricted statements are false of the code "
+    "(common_type_fill_compute_full_false, common_type_fill_request_full_false): run finalises a stopping branch "
+    "and goes on, _fill lets LenaStopFill escape to its caller (splitFill_stop says exactly what it leaves)",
     "Zip: valid distinct field names (namedtuple's own ValueError and the pickling hook globals()[name] are outside); "
     "Zip._create_context is C07's model and theorem (Lena.C07.zip_context), imported",
     "LenaSplit._get_context/_set_context (static context: C13), _repr_nested/__repr__/__eq__ are not part of the "
-    "statement and not modelled",
+    "statement and not modelled; private attributes are read only for op=init (_seq_types, _bufsize: compared when "
+    "present) — every other comparison is on yielded values, exceptions, invocation logs of the harness elements "
+    "and their states",
 ]
 RULE = ("op=run: one case = (branch list, flow, copy_buf) run under EVERY bufsize in {1..len(flow)+1, 1000, None}; "
         "exhaustive over the four branch kinds with tagged outputs and LenaStopFill at every fill index "
         "(quick: lists 0..3 for flows 0..2, 0..2 for flows 3..4; thorough: lists 0..4 for flows 0..3, 0..3 for flows "
-        "of length 4), plus seeded random cases (lists 0..4/5, flows 0..8 of random integers, 8 kinds of run "
-        "elements incl. a Cache-like one, lena.math.Sum, late/multi-result variants, every argument form accepted by "
+        "of length 4), the flow handed over in turn as list / iterator / tuple / generator / other re-iterable, plus seeded random cases (lists 0..4/5, flows 0..8 of random integers, 8 kinds of run "
+        "elements incl. a Cache-like one with is_cache (Split then reads the whole flow: Cache rule), lena.math.Sum, late/multi-result variants, every argument form accepted by "
         "_get_seq_with_type incl. tuples with pre-/post-processing callables, a common-type Split nested as a branch); "
         "for the cases flagged spec (all in quick, 1/8 resp. 30% in thorough) also the interleaved per-branch trace "
-        "against the Lean closed forms; op=runx: branches raising ValueError from fill or from inside their "
-        "generators, 1..3 consecutive runs of one Split object with the element states read back after each run, "
+        "against the Lean closed forms; op=runx: branches raising ValueError from fill or ValueError / LenaStopFill / KeyboardInterrupt from inside "
+        "their generators, 1..3 consecutive runs of one Split object with the element states read back after each run, "
         "nested Splits of any inner mix (run once per block when they have no common fill type), bufsize arguments "
         "that are not int; op=methods / zip (incl. a second compute()/request() of the same Zip): random common-type "
         "and mixed branch lists; op=zipctx: Zip over canned results with random contexts over {a,b,zip}, fields as "
-        "list/str/none of every length, reset(); op=realfc (oracle only): common-type Splits of real lena accumulators (Count, Sum, Mean, StoreFilled) and of harness elements that change / keep the value objects they are filled with, on (data, context) values: with copy_buf=True fill-all-then-compute (block-wise fill then request) == run(flow) == the same Split nested in another one == the branches driven alone on their own copies; op=init: every capability subset as a single argument, tuples over "
+        "list/str/none of every length, reset(); op=realfc (oracle only): common-type Splits of real lena accumulators (Count, Sum, Mean, StoreFilled) and of harness elements that change / keep the value objects they are filled with, on (data, context) values: with copy_buf=True fill-all-then-compute (block-wise fill then request) == run(flow) == the same Split nested in another one == the branches driven alone on their own copies; op=init: attributes present but not callable, lists of elements, is_cache flags, every capability subset as a single argument, tuples over "
         "16 representative capability sets, pairs, random lists, check_sequence_type predicates called directly; "
         "corpus/C03: regression cases. "
         "Non-trivial: >= 2 branches and a non-empty output (run), a non-empty result or an exception (others).")
